@@ -17,7 +17,11 @@ OPS = {'ro': {'eqs': ["d/dt * z = c"], 'vars': {'z': 'output(0.25)', 'c': 0.5}},
        'fo': {'eqs': ["d/dt * z = c - 0.3*fb"], 'vars': {'z': 'output(0.25)', 'c': 0.5, 'fb': 'input(0.0)'}},
        'to': {'eqs': ["d/dt * v = -v + u"], 'vars': {'v': 'output(0.1)', 'u': 'input(0.0)'}},
        # an operator that reads z of another operator of its own node
-       'rd': {'eqs': ["d/dt * q = -q + z"], 'vars': {'q': 'output(0.05)', 'z': 'input(0.0)'}}}
+       'rd': {'eqs': ["d/dt * q = -q + z"], 'vars': {'q': 'output(0.05)', 'z': 'input(0.0)'}},
+       # a source operator whose delayed variable z is NOT its output, and a reader of its real output
+       'rz': {'eqs': ["d/dt * xo = -2.0*xo + 1.0", "d/dt * z = c"],
+              'vars': {'xo': 'output(0.2)', 'z': 'variable(0.25)', 'c': 0.5}},
+       'rx': {'eqs': ["d/dt * q = -q + xo"], 'vars': {'q': 'output(0.05)', 'xo': 'input(0.0)'}}}
 
 
 def make(sources, targets, edges, feedback=False):
@@ -95,6 +99,13 @@ def cases(tier, seed):
                 e[1][3]['delay'] = d2
             add({'ops': OPS, 'node_tpls': tpls, 'edge_tpls': {}, 'share': True,
                  'circuit': {'name': 'net', 'nodes': {'m': 'M', 'a': 'Ta', 'b': 'Tb'}, 'edges': e}}, 'intra_node_reader')
+    # ... and the delayed edge leaves a variable that is not the output of its operator
+    for d1 in D[1:]:
+        for order in (('rz', 'rx'), ('rx', 'rz')):
+            tpls = {'M': [[o, {}] for o in order], 'Ta': [['to', {}]]}
+            add({'ops': OPS, 'node_tpls': tpls, 'edge_tpls': {}, 'share': True,
+                 'circuit': {'name': 'net', 'nodes': {'m': 'M', 'a': 'Ta'},
+                             'edges': [['m/rz/z', 'a/to/u', None, {'weight': 2.0, 'delay': d1}]]}}, 'intra_node_reader')
     # matrix (Connectivity) edges: two connections that leave one population variable with their own delays
     from . import C16
     T = C16.DT
